@@ -134,7 +134,11 @@ func verifHarnessDisjunctionDefaults() {
 	vals := make([]Value, nd)
 	var exprs []Expr
 	for i := range ds {
-		ds[i] = verifMakeDisj("d", maxTerms)
+		mt := maxTerms
+		if i == 0 {
+			mt = verifParam("TERMS0", maxTerms)
+		}
+		ds[i] = verifMakeDisj("d", mt)
 		exprs = append(exprs, ds[i].expr)
 	}
 	_ = vals
@@ -212,5 +216,133 @@ func verifHarnessDisjunctionDefaults() {
 		verifAssert(verifNot(specResolves), "A04.3-ambiguity-is-not-resolved-silently-and-unique-choice-is-resolved")
 	} else {
 		verifAssert(cntV == 0, "A04.1-bottom-only-if-no-common-atom")
+	}
+}
+
+// Disjunctions whose disjuncts are integer atoms or numeric bounds (< <= > >=
+// on a symbolic integer in 0..4), no default marks: the evaluator's
+// de-duplication of partially evaluated disjuncts (isEqualNodeValue on
+// lower/upper bounds) must not drop a disjunct that admits other values. For
+// an arbitrary integer probe in 0..3 the result admits the probe exactly when
+// every disjunction has a disjunct admitting it.
+
+type verifBTerm struct {
+	op  Op // 0: atom
+	num *Num
+	val Value
+}
+
+func (t verifBTerm) admits(p verifMI) bool {
+	b := verifIntVal(t.num)
+	switch t.op {
+	case LessThanOp:
+		return verifMILt(p, b)
+	case LessEqualOp:
+		return verifMILe(p, b)
+	case GreaterThanOp:
+		return verifMILt(b, p)
+	case GreaterEqualOp:
+		return verifMILe(b, p)
+	}
+	return verifMIEq(p, b)
+}
+
+// does a result disjunct admit the integer p?
+func verifAdmits(x Value, p verifMI) (r, ok bool) {
+	switch y := x.(type) {
+	case *Num:
+		return verifMIEq(verifIntVal(y), p), true
+	case *BoundValue:
+		n, isNum := y.Value.(*Num)
+		if !isNum {
+			return false, false
+		}
+		return verifBTerm{op: y.Op, num: n}.admits(p), true
+	case *BasicType:
+		return y.K&IntKind != 0, true
+	case *Conjunction:
+		r = true
+		for _, z := range y.Values {
+			a, k := verifAdmits(z, p)
+			if !k {
+				return false, false
+			}
+			r = verifAnd(r, a)
+		}
+		return r, true
+	case *Vertex:
+		y = y.DerefValue()
+		if _, isB := y.BaseValue.(*Bottom); isB {
+			return false, true
+		}
+		bv, isV := y.BaseValue.(Value)
+		if !isV {
+			return false, false
+		}
+		return verifAdmits(bv, p)
+	case *Disjunction:
+		for _, z := range y.Values {
+			a, k := verifAdmits(z, p)
+			if !k {
+				return false, false
+			}
+			r = verifOr(r, a)
+		}
+		return r, true
+	}
+	verifSample("unexpected result disjunct")
+	return false, false
+}
+
+func verifHarnessDisjunctionBounds() {
+	maxTerms := verifParam("TERMS", 2)
+	nd := verifParam("NDISJ", 2)
+	ctx := verifNewCtx()
+	ds := make([][]verifBTerm, nd)
+	v := &Vertex{}
+	for i := range ds {
+		n := 1 + verifChoice(maxTerms)
+		e := &DisjunctionExpr{}
+		for j := 0; j < n; j++ {
+			t := verifBTerm{num: verifSmallInt("d")}
+			ops := verifNumOps[:4] // < <= > >=
+			if verifParam("OPSET", 0) == 1 {
+				ops = []Op{LessThanOp, GreaterThanOp}
+			}
+			if k := verifChoice(1 + len(ops)); k > 0 {
+				t.op = ops[k-1]
+				t.val = &BoundValue{Op: t.op, Value: t.num}
+			} else {
+				t.val = t.num
+			}
+			ds[i] = append(ds[i], t)
+			e.Values = append(e.Values, Disjunct{Val: t.val})
+		}
+		v.AddConjunct(MakeRootConjunct(&Environment{}, e))
+	}
+	if verifParam("WITHINT", 0) == 1 {
+		v.AddConjunct(MakeRootConjunct(&Environment{}, &BasicType{K: IntKind}))
+	}
+	v.Finalize(ctx)
+	verifReach("evaluated")
+
+	p := verifMIFresh("p")
+	verifAssume(verifMILe(verifMIConst(0), p))
+	verifAssume(verifMILt(p, verifMIConst(verifUniverse)))
+	want := true
+	for _, d := range ds {
+		in := false
+		for _, t := range d {
+			in = verifOr(in, t.admits(p))
+		}
+		want = verifAnd(want, in)
+	}
+	got, ok := verifAdmits(v, p)
+	verifAssert(ok, "A04.0-result-is-built-from-atoms-and-bounds")
+	verifAssert(got == want, "A04.1-value-set-is-union-over-distributed-disjuncts")
+	// resolution: a single concrete value only if it is the only admitted probe
+	if n, isNum := v.Default().DerefValue().BaseValue.(*Num); isNum {
+		verifReach("resolved")
+		verifAssert(verifImplies(want, verifMIEq(verifIntVal(n), p)), "A04.3-resolved-value-is-the-only-member")
 	}
 }
